@@ -33,7 +33,7 @@ ASSUMPTIONS = [
 ]
 
 TRI = (None, True, False)
-HOOK = ("absent", "ok", "fails")
+HOOK = ("absent", "ok", "fails", "killed")  # killed: the hook process dies from a signal (negative return code)
 TREES_GIT = ("clean", "unrelated-modified", "unrelated-untracked", "pattern-staged", "pattern-untracked")
 STATUS = {
     "clean": [],
@@ -58,7 +58,7 @@ def lattice(tier, seed):
         # one fixed slice of the pairwise tri-state combinations per seed (the thorough tier has all 27)
         pairs = [c for c in itertools.product(TRI, repeat=3) if sum(x is not None for x in c) >= 2]
         clis += pairs[seed % 5 :: 5]
-        hooks = [("absent", "absent"), ("ok", "ok"), ("fails", "ok"), ("ok", "fails")]
+        hooks = [("absent", "absent"), ("ok", "ok"), ("fails", "ok"), ("ok", "fails"), ("killed", "ok"), ("ok", "killed")]
         remotes = ("upstream", None)
         kinds = ("git",)
     for kind in kinds:
@@ -161,7 +161,7 @@ def execute(p, fail=None):
     hooks = {}
     for name, mode in zip(("pre.sh", "post.sh"), p["hooks"]):
         if mode != "absent":
-            hooks[name] = (0, b"hook output\n", b"") if mode == "ok" else (3, b"", b"hook failed\n")
+            hooks[name] = {"ok": (0, b"hook output\n", b""), "fails": (3, b"", b"hook failed\n"), "killed": (-15, b"partial\n", b"")}[mode]
     status = (STATUS if p["kind"] == "git" else HG_STATUS)[p["tree"]]
 
     def probe():
@@ -204,12 +204,12 @@ def expected_effects(p, failed_effect=None):
             return [], "abort", may_fetch
     if p["hooks"][0] != "absent":
         seq.append("hook:pre.sh")
-        if p["hooks"][0] == "fails":
+        if p["hooks"][0] in ("fails", "killed"):
             return seq, "abort", may_fetch
     seq += ["add", "commit"]
     if p["hooks"][1] != "absent":
         seq.append("hook:post.sh")
-        if p["hooks"][1] == "fails":
+        if p["hooks"][1] in ("fails", "killed"):
             return seq, "abort", may_fetch
     if t:
         seq.append("tag")
